@@ -12,8 +12,9 @@ type Query {
   n: Int!
   e: Kind
   d: Date
+  stamp: Stamp
   u: User
-  users(first: Int = 10, filter: Filter, kinds: [Kind!], ids: [ID!]!, f: Float, limit: Int! = 5, opt: [String], mat: [[Int]]): [User!]!
+  users(first: Int = 10, filter: Filter, kinds: [Kind!], ids: [ID!]!, f: Float, limit: Int! = 5, opt: [String], mat: [[Int]], at: Stamp): [User!]!
   maybe: [User]
   node(id: ID!): Node
   named: [Named!]
@@ -32,6 +33,7 @@ union Result = User | Post
 enum Kind { A B }
 input Filter { kind: Kind name: String = "x" ids: [ID!] nested: Filter min: Int! = 0 req: Boolean! }
 scalar Date
+scalar Stamp @nitrogql_ts_type(resolverInput: "RI", resolverOutput: "RO", operationInput: "OI", operationOutput: "OO")
 directive @tag(name: String!) repeatable on QUERY | MUTATION | SUBSCRIPTION | FIELD | FRAGMENT_DEFINITION | FRAGMENT_SPREAD | INLINE_FRAGMENT | VARIABLE_DEFINITION
 directive @once(n: Int! = 1) on QUERY | MUTATION | SUBSCRIPTION | FIELD | FRAGMENT_DEFINITION | FRAGMENT_SPREAD | INLINE_FRAGMENT | VARIABLE_DEFINITION
 directive @onlyq on QUERY
@@ -72,7 +74,7 @@ impl DocGen<'_, '_, '_> {
     }
 
     fn dirs(&mut self, label: &'static str) -> Vec<Dir> {
-        let n = if self.custom_dirs { 10 } else { 8 };
+        let n = if self.custom_dirs { 12 } else { 10 };
         match self.c.choose(label, n) {
             0 => vec![],
             1 => vec![dir("skip", vec![("if", self.bool_var(1))])],
@@ -82,7 +84,9 @@ impl DocGen<'_, '_, '_> {
             5 => vec![dir("include", vec![("if", Value::Bool(p0(), false))])],
             6 => vec![dir("skip", vec![("if", self.bool_var(1))]), dir("include", vec![("if", self.bool_var(2))])],
             7 => vec![dir("include", vec![("if", self.bool_var(2))])],
-            8 => vec![dir("tag", vec![("name", Value::Str(p0(), "t".into()))]), dir("tag", vec![("name", Value::Str(p0(), "u".into()))])],
+            8 => vec![dir("include", vec![("if", self.bool_var(2))]), dir("skip", vec![("if", self.bool_var(1))])],
+            9 => vec![dir("include", vec![("if", Value::Bool(p0(), true))]), dir("skip", vec![("if", Value::Bool(p0(), true))])],
+            10 => vec![dir("tag", vec![("name", Value::Str(p0(), "t".into()))]), dir("tag", vec![("name", Value::Str(p0(), "u".into()))])],
             _ => vec![dir("once", vec![])],
         }
     }
@@ -492,4 +496,19 @@ pub fn for_each_value(doc: &mut ExecDoc, sch: &Sch, f: &mut dyn FnMut(&mut Value
             }
         }
     });
+}
+
+/// The TypeScript type configured for each scalar and target - the harness's own statement of the
+/// configuration (built-in defaults as documented, `Date` through the config file, `Stamp` through
+/// @nitrogql_ts_type). Order: (operationInput, operationOutput, resolverInput, resolverOutput).
+pub fn scalar_ts(name: &str) -> Option<[&'static str; 4]> {
+    Some(match name {
+        "Int" | "Float" => ["number"; 4],
+        "String" => ["string"; 4],
+        "Boolean" => ["boolean"; 4],
+        "ID" => ["string | number", "string", "string", "string | number"],
+        "Date" => ["string"; 4],
+        "Stamp" => ["OI", "OO", "RI", "RO"],
+        _ => return None,
+    })
 }
